@@ -416,6 +416,51 @@ func (n *node) checkTxnViews(fail failer) {
 						break
 					}
 				}
+				// the verbose form of the same query (what ?verbose=1 serves): same transactions, and for each of them exactly its
+				// inputs, each the output the chain recorded under that id.  Judged only when every pending transaction of the
+				// result still has all inputs unspent (the call cannot resolve a spent input of a pending transaction).
+				resolvable := true
+				for _, t := range got {
+					if !t.Status.Confirmed {
+						for _, in := range t.Transaction.In {
+							if _, ok := n.M.UTXO[in]; !ok {
+								resolvable = false
+							}
+						}
+					}
+				}
+				if resolvable {
+					var vt []visor.Transaction
+					var vin [][]visor.TransactionInput
+					var verr error
+					vdesc := "GetTransactionsWithInputs" + desc[len("GetTransactions"):]
+					if pan, msg := catch(func() { vt, vin, _, verr = n.V.GetTransactionsWithInputs(flts, order, nil) }); pan {
+						fail("C07", "GetTransactionsWithInputs:panic:"+mode, "%s panicked: %s", vdesc, msg)
+					} else if verr != nil {
+						fail("C07", "GetTransactionsWithInputs:error:"+mode, "%s: %v (the plain query answers with %d transactions)", vdesc, verr, len(got))
+					} else if len(vt) != len(got) || len(vin) != len(vt) {
+						fail("C07", "GetTransactionsWithInputs:differs-from-plain-query", "%s: %d transactions with %d input lists, the plain query returns %d", vdesc, len(vt), len(vin), len(got))
+					} else {
+						for i := range vt {
+							if vt[i].Transaction.Hash() != got[i].Transaction.Hash() {
+								fail("C07", "GetTransactionsWithInputs:differs-from-plain-query", "%s: entry %d is another transaction than in the plain query", vdesc, i)
+								break
+							}
+							if len(vin[i]) != len(vt[i].Transaction.In) {
+								fail("C07", "GetTransactionsWithInputs:wrong-number-of-inputs", "%s: transaction %d (confirmed=%v, block %d) has %d inputs, %d reported", vdesc, i, vt[i].Status.Confirmed, vt[i].Status.BlockSeq, len(vt[i].Transaction.In), len(vin[i]))
+								break
+							}
+							for j, ti := range vin[i] {
+								id := vt[i].Transaction.In[j]
+								rec, ok := n.M.Outs[id]
+								if ti.UxOut.Hash() != id || (ok && (ti.UxOut.Body.Address != rec.Out.Body.Address || ti.UxOut.Body.Coins != rec.Out.Body.Coins)) {
+									fail("C07", "GetTransactionsWithInputs:wrong-input", "%s: transaction %d input %d is reported as output %s of %s with %d droplets", vdesc, i, j, hx(ti.UxOut.Hash()), ti.UxOut.Body.Address, ti.UxOut.Body.Coins)
+									break
+								}
+							}
+						}
+					}
+				}
 			}
 		}
 	}
